@@ -170,8 +170,8 @@ class Emitter:
         """part: 'base' (definition without patched members) or 'patch'."""
         k = d['k']
         ns = self.ns
-        if k in ('struct', 'union'):
-            self.owner = d['name']
+        # members of anything else (annotation type parameters, the route schema) host no nested definition
+        self.owner = d['name'] if k in ('struct', 'union') and part == 'base' else None
         if k == 'alias':
             self.line(0, 'alias %s = %s' % (d['name'], fmt_type(d['type'], ns)))
             self.annots(1, d.get('annots') or [])
